@@ -358,19 +358,22 @@ class Models:
         return res
 
     def sign_of(self, rf: RF):
-        """+1 / -1 when every monomial has the same sign and all atoms are positive-valued."""
+        """+1 / -1 when, in numerator and denominator, every monomial has the same sign and all atoms are
+        positive-valued."""
         rf = self.st.norm(rf)
-        if not rf.d.is_const():
+
+        def poly_sign(p, scale=1):
+            signs = set()
+            for m, c in p.t.items():
+                for a, e in m:
+                    if a[0] not in ("mu", "rho", "Qm", "sf", "pw10", "beta", "const", "regid"):
+                        return None
+                signs.add(1 if c * scale > 0 else -1)
+            return signs.pop() if len(signs) == 1 else None
+        sn, sd = poly_sign(rf.n), poly_sign(rf.d)
+        if sn is None or sd is None:
             return None
-        signs = set()
-        for m, c in rf.n.t.items():
-            for a, e in m:
-                if a[0] not in ("mu", "rho", "Qm", "sf", "pw10", "beta", "const", "regid"):
-                    return None
-            signs.add(1 if c / rf.d.const_value() > 0 else -1)
-        if len(signs) == 1:
-            return signs.pop()
-        return None
+        return sn * sd
 
     # =============================================================== unit / type facts
     def type_of_unit(self, u: UnitV) -> str:
@@ -1350,6 +1353,13 @@ class Models:
             return [OpaqueV(f"{v.tag}[{i}]") for i in range(n)]
         if isinstance(v, NotImplV):
             self.I.raise_("TypeError", node)
+        if isinstance(v, TermV) and v.items is not None:
+            if len(v.items) != n:
+                self.I.raise_("ValueError", node)
+            return [TupleV([e, x]) for e, x in v.items]
+        if isinstance(v, TermV) and v.items is None and not v.normalized:
+            items = self.term_materialize(v, n, node)
+            return [TupleV([e, x]) for e, x in items]
         if isinstance(v, (Num, NoneV, QtyV, UnitV)):
             self.flag("bad-unpack", node, f"cannot unpack {v!r}")
             self.I.raise_("TypeError", node)
